@@ -97,6 +97,9 @@ def _name(node, what, ci):
 def extract_class(node, file):
     ci = ClassInfo(node, file)
     for st in node.body:
+        if isinstance(st, ast.AnnAssign) and isinstance(st.target, ast.Name) and isinstance(st.value, ast.Call):
+            # x: T = attrib(...)  reads like  x = attrib(...)
+            st = ast.copy_location(ast.Assign(targets=[st.target], value=st.value), st)
         if isinstance(st, ast.Assign) and isinstance(st.value, ast.Call):
             f = st.value.func
             fname = f.id if isinstance(f, ast.Name) else (f.attr if isinstance(f, ast.Attribute) else None)
